@@ -127,8 +127,10 @@ RANDOM_SETS = {'quick': 2000, 'thorough': 200000}   # TOTAL seeded larger member
 
 FLOORS = {   # ~50% of what a run on the unchanged tree measures (quick: min over seeds 0-3; thorough: seed 0)
     'quick': {'nontrivial': 800,
-              'monitors': {'M.pkg': 1000, 'M.query': 35000, 'M.accept': 10000, 'M.reject': 9000, 'M.accepted-served': 400,
-                           'M.brk.fields': 200, 'M.brk.bytes': 600, 'M.brk.text': 600},
+              'monitors': {'M.pkg': 1000, 'M.query': 70000, 'M.accept': 10000, 'M.reject': 9000, 'M.accepted-served': 400,
+                           'M.brk.fields': 500, 'M.brk.bytes': 600, 'M.brk.text': 600,
+                           'M.reuse': 4500, 'M.reuse.after-mutation': 2600, 'M.held': 5900,
+                           'M.edge.data': 17500, 'M.edge.control': 6200, 'M.iter': 2000},
               'counters': {'set:sibling-decides:plain-first': 300, 'set:sibling-decides:compressed-first': 300,
                            'name:leading-dot': 900, 'name:leading-dot-first-component': 400, 'name:space': 900,
                            'name:subdir': 2000, 'open:filename': 600, 'ar-style:gnu': 3000,
@@ -140,11 +142,29 @@ FLOORS = {   # ~50% of what a run on the unchanged tree measures (quick: min ove
                            'brk:char:VT': 40, 'brk:char:FF': 40, 'brk:char:FS': 40, 'brk:char:GS': 40,
                            'brk:char:RS': 40, 'brk:char:NEL': 40, 'brk:char:LS': 40, 'brk:char:PS': 40,
                            'ctltext:get_content': 900, 'ctltext:get_file.read': 900,
-                           'ctltext:get_file.readlines-joined': 900}},
+                           'ctltext:get_file.readlines-joined': 900,
+                           # second-use class (workload counters: calls planned and made, caller-side changes applied)
+                           'reuse:pkg': 630, 'reuse:pkg:with-caller-change': 540,
+                           'reuse:control:call-2': 440, 'reuse:control:call-3+': 1190, 'reuse:control:after-caller-change': 950,
+                           'reuse:scripts:call-2': 270, 'reuse:scripts:call-3+': 630, 'reuse:scripts:after-caller-change': 520,
+                           'reuse:md5:call-2': 590, 'reuse:md5:call-3+': 1360, 'reuse:md5:after-caller-change': 1120,
+                           'reuse:route:deb': 2600, 'reuse:route:part': 1890,
+                           'reuse:mut:set': 750, 'reuse:mut:del': 540, 'reuse:mut:add': 660, 'reuse:mut:clear': 210,
+                           # name-edge class
+                           'edge:data:dotdot-substring': 880, 'edge:data:dotdot-before-slash': 210,
+                           'edge:data:dotdot-after-slash': 300, 'edge:data:dotdot-first': 280, 'edge:data:dotdot-last': 210,
+                           'edge:data:listed-name': 1100,
+                           'edge:control:dotdot-substring': 510, 'edge:control:dotdot-before-slash': 110,
+                           'edge:control:dotdot-after-slash': 145, 'edge:control:dotdot-first': 145,
+                           'edge:control:dotdot-last': 140, 'edge:control:leading-dot': 380, 'edge:control:space': 520,
+                           'edge:control:trailing-dot': 270, 'edge:control:listed-name': 770,
+                           'iter:fed-back': 5400, 'absent:control': 1750, 'absent:data': 8800}},
     'thorough': {'nontrivial': 45000,
-                 'monitors': {'M.pkg': 60000, 'M.query': 2100000, 'M.accept': 100000, 'M.reject': 70000,
+                 'monitors': {'M.pkg': 60000, 'M.query': 4200000, 'M.accept': 100000, 'M.reject': 70000,
                               'M.accepted-served': 35000,
-                              'M.brk.fields': 13000, 'M.brk.bytes': 39000, 'M.brk.text': 39000},
+                              'M.brk.fields': 35000, 'M.brk.bytes': 39000, 'M.brk.text': 39000,
+                              'M.reuse': 280000, 'M.reuse.after-mutation': 164000, 'M.held': 360000,
+                              'M.edge.data': 1080000, 'M.edge.control': 375000, 'M.iter': 120000},
                  'counters': {'set:sibling-decides:plain-first': 7000, 'set:sibling-decides:compressed-first': 7000,
                               'name:leading-dot': 60000, 'name:leading-dot-first-component': 30000, 'name:space': 60000,
                               'name:subdir': 130000, 'open:filename': 18000, 'ar-style:gnu': 55000,
@@ -154,7 +174,24 @@ FLOORS = {   # ~50% of what a run on the unchanged tree measures (quick: min ove
                               'brk:char:VT': 3000, 'brk:char:FF': 3000, 'brk:char:FS': 3000, 'brk:char:GS': 3000,
                               'brk:char:RS': 3000, 'brk:char:NEL': 3000, 'brk:char:LS': 3000, 'brk:char:PS': 3000,
                               'ctltext:get_content': 59000, 'ctltext:get_file.read': 59000,
-                              'ctltext:get_file.readlines-joined': 59000}},
+                              'ctltext:get_file.readlines-joined': 59000,
+                              'reuse:pkg': 39000, 'reuse:pkg:with-caller-change': 33900,
+                              'reuse:control:call-2': 28000, 'reuse:control:call-3+': 74900,
+                              'reuse:control:after-caller-change': 62000,
+                              'reuse:scripts:call-2': 18000, 'reuse:scripts:call-3+': 41400,
+                              'reuse:scripts:after-caller-change': 33800,
+                              'reuse:md5:call-2': 36000, 'reuse:md5:call-3+': 83000, 'reuse:md5:after-caller-change': 68000,
+                              'reuse:route:deb': 164000, 'reuse:route:part': 117000,
+                              'reuse:mut:set': 48000, 'reuse:mut:del': 34000, 'reuse:mut:add': 41000, 'reuse:mut:clear': 13800,
+                              'edge:data:dotdot-substring': 54000, 'edge:data:dotdot-before-slash': 12800,
+                              'edge:data:dotdot-after-slash': 19800, 'edge:data:dotdot-first': 17000,
+                              'edge:data:dotdot-last': 13900, 'edge:data:listed-name': 68000,
+                              'edge:control:dotdot-substring': 31000, 'edge:control:dotdot-before-slash': 7000,
+                              'edge:control:dotdot-after-slash': 9000, 'edge:control:dotdot-first': 8900,
+                              'edge:control:dotdot-last': 8900, 'edge:control:leading-dot': 23000,
+                              'edge:control:space': 31000, 'edge:control:trailing-dot': 16900,
+                              'edge:control:listed-name': 46000,
+                              'iter:fed-back': 330000, 'absent:control': 106000, 'absent:data': 530000}},
 }
 
 COMP = ['', 'gz', 'bz2', 'xz', 'lzma']
@@ -848,6 +885,11 @@ def setup(ctx):
         'member sets with <=2 control and <=2 data candidates (with/without debian-binary), size>=4: all orders',
     ]
     ctx.extra['unicode_names_generated'] = int(UNICODE_OK)
+    ctx.extra['edge_names_in_data_part'] = set()
+    ctx.extra['edge_names_in_control_part'] = set()
+    ctx.extra['exhaustive_subspaces'].append(
+        'the %d listed edge names (".." inside a component, leading dots, blanks): each one as a data file and as a '
+        'control-part member at least once per run, all three spellings' % len(EDGE))
     if ctx.tier == 'thorough':
         ctx.extra['dpkg_deb_crosscheck'] = {'packages': 0, 'rejected': 0}
 
@@ -994,8 +1036,9 @@ def check_pkg(ctx, case, stats):
     earlier = {}        # family -> objects returned so far (identity bookkeeping only)
     touched = []        # objects the caller changed (a reader that hands the same object out again aliases them)
 
-    def second_use(fam, route, obj, muts):
-        """bookkeeping after a judged call; applies the caller-side changes"""
+    def second_use(fam, route, obj, muts, ok=True):
+        """bookkeeping after a judged call; applies the caller-side changes.  ok: the result equalled the packed
+        content when it was returned (only such results are kept for the end-of-case comparison)"""
         n = calls.get(fam, 0) + 1
         calls[fam] = n
         if n > 1:
@@ -1012,7 +1055,7 @@ def check_pkg(ctx, case, stats):
             return
         earlier.setdefault(fam, []).append(obj)
         if not muts:
-            if reuse and not any(obj is h[1] for h in held) and not any(obj is t for t in touched):
+            if ok and reuse and not any(obj is h[1] for h in held) and not any(obj is t for t in touched):
                 held.append((fam, obj, n))
             return
         for m in muts:
@@ -1130,7 +1173,7 @@ def check_pkg(ctx, case, stats):
                                                  len(pairs), len(model['fields']), diff, list(got.keys())))
                 elif brk:
                     count('brk:fields-verbatim')
-                second_use('control', route, got, muts)
+                second_use('control', route, got, muts, pairs == model['fields'])
             elif kind == 'scripts':
                 mon('M.query')
                 route, muts = op[1], op[2]
@@ -1144,7 +1187,7 @@ def check_pkg(ctx, case, stats):
                                 sorted(got), sorted(model['scripts']),
                                 [(k, brief(got.get(k)), brief(model['scripts'].get(k)))
                                  for k in sorted(set(got) | set(model['scripts'])) if got.get(k) != model['scripts'].get(k)][:2]))
-                second_use('scripts', route, got, muts)
+                second_use('scripts', route, got, muts, got == model['scripts'])
             elif kind == 'md5':
                 mon('M.query')
                 enc, route, muts = op[1], op[2], op[3]
@@ -1161,7 +1204,7 @@ def check_pkg(ctx, case, stats):
                                 ', caller changed an earlier result' if fam in changed else '',
                                 sorted(set(want) - set(got))[:3], sorted(set(got) - set(want))[:3],
                                 [k for k in want if k in got and got[k] != want[k]][:3]))
-                second_use(fam, route, got, muts)
+                second_use(fam, route, got, muts, got == want)
             elif kind == 'ctlraw':
                 mon('M.query')
                 spk, sp = op[1]
@@ -1598,6 +1641,7 @@ def run_case(ctx, case):
                         ctx.count('edge:%s:%s' % (part, cls))
                 if n in EDGE:
                     ctx.count('edge:%s:listed-name' % part)
+                    ctx.extra.setdefault('edge_names_in_%s_part' % part, set()).add(n)
         reuse = case.get('reuse') or []
         if reuse:
             ctx.count('reuse:pkg')
@@ -1675,6 +1719,11 @@ def conclusive(tier, counters, monitor_evals, extra):
     pairs = extra.get('config_pairs_covered', [])
     if len(pairs) < 25:
         return 'only %d of the 25 (control x data) compression pairs were exercised' % len(pairs)
+    for part in ('data', 'control'):
+        seen = set(extra.get('edge_names_in_%s_part' % part, []))
+        missing = [n for n in EDGE if n not in seen]
+        if missing:
+            return 'edge names never packed into the %s part: %r' % (part, missing[:5])
     return None
 
 
